@@ -37,7 +37,9 @@ Print Assumptions C09_stream_wf.
 
 (* Feeding those events to StreamToExtendedDecorator yields for each test one bracket
    time(start) startTest time(outcome) outcome stopTest with the same id, the same outcome (error as
-   failure), the tags current at the outcome, the supplied times (0 = none supplied: a wall-clock value),
+   failure), the tags current at the outcome, the supplied times (0 = none supplied: a wall-clock value; a
+   time supplied before a startTest that starts the run itself counts, one before an explicit startTestRun
+   does not: startTestRun resets it),
    and as details exactly the details with non-empty bytes (same joined bytes, equal content type) plus
    the non-empty skip reason; startTestRun / stopTestRun pass through. *)
 Theorem C09_roundtrip : forall h, wf_from PNot h = true ->
@@ -71,6 +73,36 @@ Theorem C09_tables :
   /\ final None = false /\ final (Some Inprogress) = false.
 Proof. exact (conj word_table (conj final_word_final (conj outcome_of_final_word (conj final_none final_inprogress)))). Qed.
 Print Assumptions C09_tables.
+
+(* time() before the run is started (wf accepts it): any number of time() calls, the last being time(t),
+   then a startTest that starts the run itself - the 'inprogress' event carries t, and the statement demands t;
+   time() calls, then an explicit startTestRun - startTestRun resets the supplied time: the wall clock (0) *)
+Theorem C09_time_before_start : forall ts t i h,
+  (exists rest, mid_stream (map OTime ts ++ OTime t :: OStartTest i :: h)
+                = MStartRun :: status_ev i Inprogress None (Some t) :: rest)
+  /\ (exists xs, fst (expected ss0 (map OTime ts ++ OTime t :: OStartTest i :: h))
+                 = XStartRun :: XStatus i Inprogress None t :: xs)
+  /\ (exists rest, mid_stream (map OTime ts ++ OStartRun :: OStartTest i :: h)
+                   = MStartRun :: status_ev i Inprogress None (Some wall) :: rest)
+  /\ (exists xs, fst (expected ss0 (map OTime ts ++ OStartRun :: OStartTest i :: h))
+                 = XStartRun :: XStatus i Inprogress None wall :: xs).
+Proof. exact time_before_start. Qed.
+Print Assumptions C09_time_before_start.
+
+(* non-vacuity of it: two time() calls, the implicit start, a later time() for the outcome; the replayed
+   bracket has time(9) startTest time(11) outcome; with an explicit startTestRun in between, time(0) startTest *)
+Example C09_example_time :
+  let h := [OTime 7; OTime 9; OStartTest 1; OTime 11; OOutcome AddSuccess 1 None None; OStopTest 1; OStopRun] in
+  let h' := [OTime 7; OStartRun; OStartTest 1; OOutcome AddSuccess 1 None None; OStopTest 1] in
+  wf_from PNot h = true /\ wf_from PNot h' = true
+  /\ norm_log (final_log h)
+     = [LStartRun; LTime 9; LStartTest 1; LTime 11; LOutcome AddSuccess 1 [] []; LStopTest 1; LStopRun]
+  /\ norm_log (final_log h')
+     = [LStartRun; LTime 0; LStartTest 1; LTime 0; LOutcome AddSuccess 1 [] []; LStopTest 1]
+  /\ spec_okb {| hist := h |} (model {| hist := h |}) = true
+  (* the behaviour before the repair (wall clock on every event) is rejected by the statement *)
+  /\ spec_okb {| hist := h |} (model {| hist := OStartRun :: tl (tl h) |}) = false.
+Proof. vm_compute. repeat split. Qed.
 
 (* non-vacuity: run-level and test-level tags, a supplied time, a failure with a two-chunk text detail, an
    empty detail and a parameterised binary one, then a skip with a reason *)
